@@ -1,0 +1,19 @@
+//go:build verif
+
+// Contracts for object-key freshness (property C33). Comment-only; read by /verif (govc).
+
+package vgis3
+
+// generateUUID: the text is rendered from bytes obtained from crypto/rand (never from a clock
+// or a counter); uniqueText(result) names that fact for callers.
+//
+//@ func generateUUID
+//@   property C33
+//@   at call fmt.Sprintf#2 assert [random] freshBytes(b)
+//@   establishes uniqueText(result)
+
+// Upload: the object key is the configured prefix followed by a fresh unique part.
+//
+//@ func (*S3Storage).Upload
+//@   property C33
+//@   at call aws.String#2 assert [key] freshKey(arg0)
